@@ -593,6 +593,10 @@ pub struct LineEdits {
     /// character edits giving the new state: (line, position, kind 0 substitute / 1 insert / 2 delete, character)
     pub edits: Vec<(u8, u8, u8, u8)>,
     pub unified: u8,
+    /// character edits of the START-TAG line (position, kind, character): applied to the OLD state only, so the
+    /// parsed new state keeps its tag; changed ranges then begin or end anywhere around the tag's `<` and `>`
+    #[serde(default)]
+    pub tag_edits: Vec<(u8, u8, u8)>,
 }
 
 /// Line-edit part: the old and new state differ by a few character edits inside short lines of mixed ASCII and
@@ -625,8 +629,31 @@ pub fn check_line_edits(c: &LineEdits, probe: &Probe) -> Verdict {
             _ => {}
         }
     }
-    let file = |ls: &Vec<Vec<char>>| format!("# <block name=\"u\" keep-unique>\n{}# </block>\nafter = 1\n", ls.iter().map(|l| format!("{}\n", to_line(l))).collect::<String>());
-    let (old_t, new_t) = (file(&old), file(&new));
+    let new_tag: Vec<char> = " # <block name=\"u\" keep-unique> tail".chars().collect();
+    let mut old_tag = new_tag.clone();
+    for (p, k, ch) in &c.tag_edits {
+        let ch = EDIT_CHARS[*ch as usize % EDIT_CHARS.len()];
+        match k % 3 {
+            0 if !old_tag.is_empty() => {
+                let i = *p as usize % old_tag.len();
+                old_tag[i] = ch;
+            }
+            1 => {
+                let i = *p as usize % (old_tag.len() + 1);
+                old_tag.insert(i, ch);
+            }
+            2 if old_tag.len() > 1 => {
+                let i = *p as usize % old_tag.len();
+                old_tag.remove(i);
+            }
+            _ => {}
+        }
+    }
+    let file = |tag: &Vec<char>, ls: &Vec<Vec<char>>| format!("{}\n{}# </block>\nafter = 1\n", to_line(tag), ls.iter().map(|l| format!("{}\n", to_line(l))).collect::<String>());
+    let (old_t, new_t) = (file(&old_tag, &old), file(&new_tag, &new));
+    if old_tag != new_tag {
+        probe.class("start-tag line edited");
+    }
     if old.iter().zip(&new).any(|(a, b)| a != b && a.iter().zip(b).position(|(x, y)| x != y).is_some_and(|i| a[i].len_utf8() > 1 && b[i].len_utf8() > 1)) {
         probe.nontrivial(); // the first differing character of a changed line is multi-byte on both sides
     }
@@ -706,7 +733,7 @@ pub fn odd_key_items() -> Vec<OddKeys> {
 pub fn run(run: &mut Run) {
     run.sentinel("K6", "raw", check_raw);
     run.enumerate("raw", Vec::<RawInput>::new(), None, check_raw);
-    run.rule = "three enumerated and four random parts. odd-numbers: every pair (and a sample of triples) of 18 unusual numerals (nan, inf, exponents, signs, -0, overflow, underscores, hex, Arabic-Indic digit, 2^53+1, blank) as the keys of a numeric keep-sorted block, with and without a pattern: any verdict, but no panic. line-edits: a block of 1..4 short lines over 21 characters (ASCII and multi-byte characters in groups sharing their UTF-8 lead bytes) changed by 1..4 character substitutions / insertions / deletions, real `git diff -U0..3` piped to `blockwatch` and `blockwatch list` (non-trivial = the first differing character of a changed line is multi-byte on both sides). deep: 16 repetitive shapes (nested parentheses / brackets / braces / elements, block-quote prefixes, comment openers, comment lines, nested <block> tags, member and operator chains, quotes, nested lists, backticks, unfinished tags) repeated 300 and 1 000 (thorough 3 000) times under every suffix, and expression nesting 40 000 (thorough 200 000) deep under 18 suffixes, on the CLI in scan and list mode. unicode-sweep: the golden file of every (suffix, comment form) with one unusual character (NBSP, ideographic space, U+2028, NEL, é, emoji, combining mark, BOM, VT, CR, NUL) inserted at every byte position, or substituted for each blank, parsed + validated in-process. soup: 1..40 tokens drawn from 155 fragments (comment delimiters of every language, tag fragments, half-written tags, quotes, brackets, newlines/CR/CRLF, NBSP, zero-width, emoji, combining marks, BOM, here-doc/PHP/Markdown/XML openers, small valid statements), glued or space-separated, run in-process (parse + sync validators) under all 39 suffixes. mutants: delete/duplicate/insert-token/truncate/move-span mutations of valid files (golden file of every suffix x comment form, and the repository's own sources, tests, README, capped at 8 KiB) under their own suffix in-process. cli: a mutant committed and a further mutation in the work tree, real `git diff -U0..3` piped to `blockwatch` and `blockwatch list`, plus scan and list, under the file's suffix and a second random suffix. Every in-process panic is re-run on the CLI before it is reported. Evaluations count (input, suffix, mode) runs. Non-trivial input = unbalanced comment delimiters, a half-written tag, a Markdown definition opener or a degenerate `<!-->`.".into();
+    run.rule = "three enumerated and four random parts. odd-numbers: every pair (and a sample of triples) of 18 unusual numerals (nan, inf, exponents, signs, -0, overflow, underscores, hex, Arabic-Indic digit, 2^53+1, blank) as the keys of a numeric keep-sorted block, with and without a pattern: any verdict, but no panic. line-edits: a block of 1..4 short lines over 21 characters (ASCII and multi-byte characters in groups sharing their UTF-8 lead bytes) changed by 1..4 character substitutions / insertions / deletions, in two thirds of the cases together with 1..2 such edits of the start-tag line (so that changed ranges begin or end anywhere around the tag), real `git diff -U0..3` piped to `blockwatch` and `blockwatch list` (non-trivial = the first differing character of a changed line is multi-byte on both sides). deep: 16 repetitive shapes (nested parentheses / brackets / braces / elements, block-quote prefixes, comment openers, comment lines, nested <block> tags, member and operator chains, quotes, nested lists, backticks, unfinished tags) repeated 300 and 1 000 (thorough 3 000) times under every suffix, and expression nesting 40 000 (thorough 200 000) deep under 18 suffixes, on the CLI in scan and list mode. unicode-sweep: the golden file of every (suffix, comment form) with one unusual character (NBSP, ideographic space, U+2028, NEL, é, emoji, combining mark, BOM, VT, CR, NUL) inserted at every byte position, or substituted for each blank, parsed + validated in-process. soup: 1..40 tokens drawn from 155 fragments (comment delimiters of every language, tag fragments, half-written tags, quotes, brackets, newlines/CR/CRLF, NBSP, zero-width, emoji, combining marks, BOM, here-doc/PHP/Markdown/XML openers, small valid statements), glued or space-separated, run in-process (parse + sync validators) under all 39 suffixes. mutants: delete/duplicate/insert-token/truncate/move-span mutations of valid files (golden file of every suffix x comment form, and the repository's own sources, tests, README, capped at 8 KiB) under their own suffix in-process. cli: a mutant committed and a further mutation in the work tree, real `git diff -U0..3` piped to `blockwatch` and `blockwatch list`, plus scan and list, under the file's suffix and a second random suffix. Every in-process panic is re-run on the CLI before it is reported. Evaluations count (input, suffix, mode) runs. Non-trivial input = unbalanced comment delimiters, a half-written tag, a Markdown definition opener or a degenerate `<!-->`.".into();
     run.assumptions = vec![
         "inputs are at most 16 KiB (edited lines are short: the character diff of one replaced line is quadratic, slowness on very long lines is not flagged)".into(),
         "only git-made diffs are piped in".into(),
@@ -723,8 +750,8 @@ pub fn run(run: &mut Run) {
     run.enumerate("odd-numbers", odd_key_items(), Some("every pair (and a sample of triples) of 18 unusual numerals as the keys of a numeric keep-sorted block"), check_odd_keys);
     run.random("cli", run.tier.pick(400, 10000), cli, check_cli);
     let edits = || {
-        (proptest::collection::vec(proptest::collection::vec(any::<u8>(), 0..12), 1..5), proptest::collection::vec((any::<u8>(), any::<u8>(), 0u8..3, any::<u8>()), 1..5), 0u8..4)
-            .prop_map(|(old, edits, unified)| LineEdits { old, edits, unified })
+        (proptest::collection::vec(proptest::collection::vec(any::<u8>(), 0..12), 1..5), proptest::collection::vec((any::<u8>(), any::<u8>(), 0u8..3, any::<u8>()), 1..5), 0u8..4, prop_oneof![1 => Just(vec![]), 2 => proptest::collection::vec((any::<u8>(), 0u8..3, any::<u8>()), 1..3)])
+            .prop_map(|(old, edits, unified, tag_edits)| LineEdits { old, edits, unified, tag_edits })
             .boxed()
     };
     run.random("line-edits", run.tier.pick(600, 20000), edits, check_line_edits);
